@@ -61,11 +61,14 @@ def explore(ctx):
     cases = []
     try:
         def has_open(spec):
-            return True
-        for c in LC.gen_cases(ctx, ctx.budget(500, 12000), mutate_p=0.0, prop='C04'):
+            if ctx.rng.random() < 0.3:
+                return True
+            return any(c.get('extra') or any(p.get('type') in (None, ('any',)) for p in c.get('params', []))
+                       for c in spec)
+        for c in LC.gen_cases(ctx, ctx.budget(500, 12000), mutate_p=0.0, prop='C04', model_filter=has_open):
             # inject 1-3 tags
             doc = c.doc
-            if doc is not None:
+            if doc is not None and ctx.rng.random() < 0.75:
                 k = ctx.rng.randint(1, 3)
                 descs = []
                 for _ in range(k):
